@@ -488,31 +488,42 @@ class GraphQLSchema:
     def _validate_field_type_is_same_as_interface_type(
         self, field_type, interface_field_type
     ) -> bool:
-        # If they are the same simple type
-        if field_type == interface_field_type:
-            return True
-
-        # If field_type is a nonnull variant of interface_type then it's ok
+        # A non-null field type is a valid implementation of the nullable or
+        # non-null variant of the interface field type
         if isinstance(field_type, GraphQLNonNull):
             return self._validate_field_type_is_same_as_interface_type(
-                field_type.gql_type, interface_field_type
+                field_type.gql_type,
+                interface_field_type.gql_type
+                if isinstance(interface_field_type, GraphQLNonNull)
+                else interface_field_type,
             )
 
         # If interface says !Null but field is not non null
         if isinstance(interface_field_type, GraphQLNonNull):
             return False
 
-        # If interface says list but field is not the same list
-        # because firt the == condition is false (or else we wouldn't be here)
-        # and field_type isn't a non_null of interface type
-        # then if interface is a list, they aren't the same type
-        if isinstance(interface_field_type, GraphQLList):
-            return False
+        # Lists are valid if their item types are
+        if isinstance(field_type, GraphQLList) or isinstance(
+            interface_field_type, GraphQLList
+        ):
+            return (
+                isinstance(field_type, GraphQLList)
+                and isinstance(interface_field_type, GraphQLList)
+                and self._validate_field_type_is_same_as_interface_type(
+                    field_type.gql_type, interface_field_type.gql_type
+                )
+            )
 
-        # Then, look at the possible type for the interface
-        interface = self.type_definitions[interface_field_type]
-        if isinstance(interface, GraphQLInterfaceType):
-            return interface.is_possible_type(field_type)
+        # If they are the same simple type
+        if field_type == interface_field_type:
+            return True
+
+        # Then, look at the possible types of the interface or union
+        abstract_type = self.type_definitions.get(interface_field_type)
+        if isinstance(abstract_type, GraphQLInterfaceType):
+            return abstract_type.is_possible_type(field_type)
+        if isinstance(abstract_type, GraphQLUnionType):
+            return field_type in abstract_type.possible_types_set
         return False
 
     def _validate_field_follow_interface(
